@@ -99,3 +99,150 @@ func runS21(c *core.Ctx) {
 		c.OK(fn+"/raw-text", fd.Pos(), "the raw text is only handed to the parser constructor")
 	}
 }
+
+// L8: a failed parse is published once. In the locked branch of parseRaw (nodes that other
+// goroutines may be reading) the node is updated with atomic stores; the parser's result is the
+// zero Node when it failed, so it must not be stored before the error is examined - readers
+// would see an empty, valid-looking node until the error node replaces it.
+//
+// S24: castNumber is the bool -> "0"/"1" helper; handing it `v != 0` for a numeric v turns every
+// non-zero number into 1.
+
+func init() {
+	register(&core.Rule{ID: "L8", Min: 1, Arm64: true,
+		Doc: "In ast.(*Node).parseRaw every `self.assign(n)` whose argument is a variable assigned from a parser run (`n, e = parser.Parse()`) stands under a test that the error of that run is zero (`if e == 0`); the error node is the only thing published otherwise.",
+		Run: runL8})
+	register(&core.Rule{ID: "S24", Min: 1, Arm64: true,
+		Doc: "castNumber (bool to \"0\"/\"1\") is never applied to a comparison of a numeric value with zero in package ast: `castNumber(v != 0)` in a numeric arm of Number() returns \"1\" for every non-zero value instead of the number.",
+		Run: runS24})
+}
+
+func runL8(c *core.Ctx) {
+	p := c.Prog
+	pk := p.Pkg("ast")
+	fd := core.FuncDecl(pk, "Node", "parseRaw")
+	cn := "ast.(Node).parseRaw/publish-on-success"
+	if fd == nil || fd.Body == nil {
+		c.Undecided(cn, token.NoPos, "not found")
+		return
+	}
+	c.Analysed(core.FuncName(pk, fd))
+	// variables assigned from parser.Parse() together with their error variable
+	type pr struct{ n, e types.Object }
+	var runs []pr
+	ast.Inspect(fd.Body, func(nd ast.Node) bool {
+		as, ok := nd.(*ast.AssignStmt)
+		if !ok || len(as.Lhs) != 2 || len(as.Rhs) != 1 {
+			return true
+		}
+		call, ok := as.Rhs[0].(*ast.CallExpr)
+		if !ok {
+			return true
+		}
+		if se, ok := call.Fun.(*ast.SelectorExpr); !ok || se.Sel.Name != "Parse" {
+			return true
+		}
+		n, ok1 := as.Lhs[0].(*ast.Ident)
+		e, ok2 := as.Lhs[1].(*ast.Ident)
+		if ok1 && ok2 {
+			runs = append(runs, pr{p.ObjectOf(n), p.ObjectOf(e)})
+		}
+		return true
+	})
+	var stack []ast.Node
+	sites := 0
+	var bad token.Pos
+	ast.Inspect(fd.Body, func(nd ast.Node) bool {
+		if nd == nil {
+			stack = stack[:len(stack)-1]
+			return true
+		}
+		stack = append(stack, nd)
+		call, ok := nd.(*ast.CallExpr)
+		if !ok || len(call.Args) != 1 {
+			return true
+		}
+		if se, ok := call.Fun.(*ast.SelectorExpr); !ok || se.Sel.Name != "assign" {
+			return true
+		}
+		id, ok := ast.Unparen(call.Args[0]).(*ast.Ident)
+		if !ok {
+			return true
+		}
+		for _, r := range runs {
+			if p.ObjectOf(id) != r.n {
+				continue
+			}
+			sites++
+			guarded := false
+			for _, a := range stack {
+				if is, ok := a.(*ast.IfStmt); ok {
+					if be, ok := ast.Unparen(is.Cond).(*ast.BinaryExpr); ok && be.Op == token.EQL && exprStr(be.Y) == "0" {
+						if eid, ok := ast.Unparen(be.X).(*ast.Ident); ok && p.ObjectOf(eid) == r.e {
+							guarded = true
+						}
+					}
+				}
+			}
+			if !guarded && bad == token.NoPos {
+				bad = call.Pos()
+			}
+		}
+		return true
+	})
+	switch {
+	case bad != token.NoPos:
+		c.Bad(cn, bad, "the parser's result is published with assign() before its error is examined: when the parse failed the result is the zero Node, so concurrent readers of this node see V_NONE (Check() and Valid() succeed, Len() is 0, Get() says unsupported type) until the error node replaces it")
+	case sites == 0:
+		c.OK(cn, fd.Pos(), "no parser result is published through assign()")
+	default:
+		c.OK(cn, fd.Pos(), "%d assign() of a parser result, each under `e == 0`", sites)
+	}
+}
+
+func runS24(c *core.Ctx) {
+	p := c.Prog
+	pk := p.Pkg("ast")
+	n := 0
+	for _, fd := range core.FuncDecls(pk) {
+		if fd.Body == nil {
+			continue
+		}
+		fn := core.FuncName(pk, fd)
+		calls, k := 0, 0
+		ast.Inspect(fd.Body, func(nd ast.Node) bool {
+			call, ok := nd.(*ast.CallExpr)
+			if !ok || len(call.Args) != 1 {
+				return true
+			}
+			if id, ok := call.Fun.(*ast.Ident); !ok || id.Name != "castNumber" {
+				return true
+			}
+			calls++
+			be, ok := ast.Unparen(call.Args[0]).(*ast.BinaryExpr)
+			if !ok || (be.Op != token.NEQ && be.Op != token.EQL) {
+				return true
+			}
+			t := pk.TypesInfo.TypeOf(be.X)
+			if t == nil {
+				return true
+			}
+			if b, ok := t.Underlying().(*types.Basic); ok && b.Info()&types.IsNumeric != 0 {
+				k++
+				c.Analysed(fn)
+				c.Bad(fn+"/bool-cast-of-number#"+itoa(k), call.Pos(), "castNumber(%s) reduces the %s value to \"0\" or \"1\": ast.NewAny(42).Number() returns \"1\" (Int64 and Float64 of the same node return 42)", exprStr(call.Args[0]), types.TypeString(t, nil))
+			}
+			return true
+		})
+		if calls > 0 {
+			n++
+			if k == 0 {
+				c.Analysed(fn)
+				c.OK(fn+"/bool-cast", fd.Pos(), "%d use(s) of castNumber, all on boolean values", calls)
+			}
+		}
+	}
+	if n == 0 {
+		c.Undecided("ast/castNumber", token.NoPos, "castNumber is not used")
+	}
+}
